@@ -1132,6 +1132,11 @@ def cpl(c, F, G = None, h = None, dims = None, A = None, b = None,
                 blas.copy(s, news);  blas.axpy(ds2, news, alpha = step) 
 
                 t = F(newx)
+                if t is None or t[0] is None:
+                    # Close to the boundary of the domain, rounding can
+                    # put newx outside although a larger step was inside.
+                    step *= BETA
+                    continue
                 newf, newDf = matrix(t[0], tc = 'd'), t[1]
                 if type(newDf) is matrix or type(Df) is spmatrix:
                     if newDf.typecode != 'd' or \
